@@ -15,6 +15,18 @@ const INVALID_FILENO: i32 = -1;
 
 static WRITE: AtomicI32 = AtomicI32::new(INVALID_FILENO);
 
+/// The first fatal signal that was delivered, zero if there was none. Recorded by
+/// the signal handler itself, so that it is known as soon as a child that was
+/// running when the signal arrived has been waited for, even if the signal
+/// handler thread has not yet read it from the pipe.
+static DELIVERED: AtomicI32 = AtomicI32::new(0);
+
+pub(crate) fn delivered() -> Option<Signal> {
+  u8::try_from(DELIVERED.load(atomic::Ordering::Relaxed))
+    .ok()
+    .and_then(|signal| Signal::try_from(signal).ok())
+}
+
 fn die(message: &str) -> ! {
   // SAFETY:
   //
@@ -53,6 +65,37 @@ extern "C" fn handler(signal: libc::c_int) {
   // `WRITE` is initialized before the signal handler can run and remains open
   // for the duration of the program.
   let fd = unsafe { BorrowedFd::borrow_raw(WRITE.load(atomic::Ordering::Relaxed)) };
+
+  #[cfg(any(
+    target_os = "dragonfly",
+    target_os = "freebsd",
+    target_os = "ios",
+    target_os = "macos",
+    target_os = "netbsd",
+    target_os = "openbsd",
+  ))]
+  let fatal = signal != 29;
+
+  #[cfg(not(any(
+    target_os = "dragonfly",
+    target_os = "freebsd",
+    target_os = "ios",
+    target_os = "macos",
+    target_os = "netbsd",
+    target_os = "openbsd",
+  )))]
+  let fatal = true;
+
+  if fatal {
+    DELIVERED
+      .compare_exchange(
+        0,
+        signal.into(),
+        atomic::Ordering::Relaxed,
+        atomic::Ordering::Relaxed,
+      )
+      .ok();
+  }
 
   if let Err(err) = nix::unistd::write(fd, &[signal]) {
     die(err.desc());
